@@ -1,9 +1,11 @@
 (* Tie 1 for C19: the hand transcription in Model/Cli.v agrees with what harness/gen_c19.py regenerated from the
    source on every run (Gen/CliTables.v): file-type table, filter registry, dataclass fields in order (all optional,
-   so ModuleConfiguration.validate never raises on a dict), decoded defaults, and every decoder on the fixed probe
-   set.  If the code changes, these stop compiling and the check runs its violation search. *)
+   so ModuleConfiguration.validate never raises on a dict) with the name of their decoder, decoded defaults, the shape
+   of tt.convert read from its AST (order of effects, reader and writer dispatch with their configuration sections),
+   the argparse declarations (sub-commands, option strings, destinations, actions, required, defaults), and every
+   decoder on the fixed probe set.  If the code changes, these stop compiling and the check runs its violation search. *)
 From Coq Require Import String.
-From TT Require Import Base.Prelude Base.CliTypes Gen.CliUnicode Model.Cli Spec.CliSpec Model.CliCases Gen.CliTables.
+From TT Require Import Base.Prelude Base.CliTypes Gen.CliUnicode Model.Cli Spec.CliSpec Model.CliCases Gen.CliTables Gen.CliShape.
 
 Fixpoint all2 {A B} (f : A -> B -> bool) (a : list A) (b : list B) : bool :=
   match a, b with [], [] => true | x :: a', y :: b' => f x y && all2 f a' b' | _, _ => false end.
@@ -21,27 +23,62 @@ Lemma filter_registry_agrees :
   list_eqb text_eqb (List.map fst gen_filter_registry) (List.map fst filter_registry) = true.
 Proof. vm_compute. split; reflexivity. Qed.
 
-(* configuration classes: section names, field names in dataclass order, every field optional for validate();
-   exactly the general section has no decoders *)
-Definition model_fields : list (string * list string) :=
-  [("general", ["log_level"; "progress_bar"; "document_lang"]);
-   ("imsc_writer", ["time_format"; "fps"]);
-   ("scc_reader", ["text_align"]);
-   ("stl_reader", ["disable_fill_line_gap"; "program_start_tc"; "disable_line_padding"; "font_stack"; "max_row_count"]);
-   ("srt_writer", ["text_formatting"]);
-   ("vtt_writer", ["line_position"; "text_align"; "cue_id"]);
-   ("lcd", ["safe_area"; "preserve_text_align"; "color"; "bg_color"])]%string.
+(* configuration classes: section names, field names in dataclass order, every field optional for validate(), and the
+   decoder attached to each field is the function M transcribes under that name *)
 Lemma config_fields_agree :
-  all2 (fun g m => text_eqb (fst g) (T (fst m)) &&
-                       all2 (fun gf mf => text_eqb (fst (fst gf)) (T mf)) (snd g) (snd m) &&
-                       forallb (fun gf => snd (fst gf)) (snd g) &&
-                       forallb (fun gf => Bool.eqb (snd gf) (negb (text_eqb (fst g) (T "general")))) (snd g))
-           gen_config_fields model_fields = true.
+  all2 (fun g m => text_eqb (fst (fst g)) (T (fst m)) &&
+                       all2 (fun gf mf => text_eqb (fst (fst gf)) (T (fst mf)) && text_eqb (snd gf) (T (snd mf))) (snd g) (snd m) &&
+                       forallb (fun gf => snd (fst gf)) (snd g))
+           gen_config_fields config_table = true.
 Proof. vm_compute. reflexivity. Qed.
 (* the specification's key table names the same fields *)
 Lemma spec_keys_agree :
-  forallb (fun m => list_eqb String.eqb (List.map fst (keys_of (fst m))) (snd m)) model_fields = true.
+  forallb (fun m => list_eqb String.eqb (List.map fst (keys_of (fst m))) (List.map fst (snd m))) config_table = true.
 Proof. vm_compute. reflexivity. Qed.
+
+(* the body of tt.convert, read from its AST: the order of its effects, and which reader / writer is called with which
+   configuration section for which file type — M's tables, and through them S's sections_in_use *)
+Definition dispatch_eqb (g : text * text * option text) (m : ftype * (string * option string)) : bool :=
+  match g, m with
+  | (v, alias, sec), (t, (malias, msec)) =>
+      opt_eqb text_eqb (Some v) (option_map fst (find (fun vt => Z.eqb (ftype_code (snd vt)) (ftype_code t)) file_types)) &&
+      text_eqb alias (T malias) && opt_eqb text_eqb sec (option_map T msec)
+  end.
+Lemma convert_shape_agrees :
+  list_eqb text_eqb gen_phases (List.map (fun p => T (phase_name p)) phase_order) = true /\
+  all2 dispatch_eqb gen_reader_table reader_table = true /\ all2 dispatch_eqb gen_writer_table writer_table = true.
+Proof. vm_compute. repeat split; reflexivity. Qed.
+(* S's reading of which section goes with which type is the same table *)
+Lemma spec_sections_agree :
+  forallb (fun t => list_eqb String.eqb
+                      (match t with SCC => ["scc_reader"] | STL => ["stl_reader"] | _ => [] end)%string
+                      (match assocT (tname t) (List.map (fun r => (tname (fst r), snd (snd r))) reader_table) with
+                       | Some (Some x) => [x] | _ => [] end)) all_ftypes = true /\
+  forallb (fun t => Bool.eqb (writable t) (match assocT (tname t) (List.map (fun r => (tname (fst r), tt)) writer_table) with Some _ => true | None => false end) &&
+                    list_eqb String.eqb
+                      (match t with TTML => ["imsc_writer"] | SRT => ["srt_writer"] | VTT => ["vtt_writer"] | _ => [] end)%string
+                      (match assocT (tname t) (List.map (fun r => (tname (fst r), snd (snd r))) writer_table) with
+                       | Some (Some x) => [x] | _ => [] end)) all_ftypes = true.
+Proof. vm_compute. split; reflexivity. Qed.
+
+(* argparse: the sub-commands; every option string of `convert` with its destination; `store` with one argument
+   everywhere except `filter` (append, default []) and help; exactly input and output are required; and S's flags
+   are the same option strings (without -h/--help) *)
+Definition dest_name (d : dest) : string :=
+  match d with DHelp => "help" | DInput => "input" | DOutput => "output" | DItype => "itype" | DOtype => "otype" | DFilter => "filter"
+             | DConfig => "config" | DConfigFile => "config_file" end%string.
+Definition option_row_ok (g : text * text * text * bool * text) (m : text * dest) : bool :=
+  match g with (o, d, kind, req, dflt) =>
+    text_eqb o (fst m) && text_eqb d (T (dest_name (snd m))) &&
+    text_eqb kind (T (match snd m with DHelp => "_HelpAction" | DFilter => "_AppendAction" | _ => "_StoreAction" end)%string) &&
+    Bool.eqb req (existsb (fun r => dest_code r =? dest_code (snd m)) required_dests) &&
+    text_eqb dflt (T (match snd m with DHelp => "'==SUPPRESS=='" | DFilter => "[]" | _ => "None" end)%string)
+  end.
+Lemma argparse_agrees :
+  list_eqb text_eqb gen_subcommands subcommands = true /\ all2 option_row_ok gen_options option_strings = true /\
+  all2 (fun (a : text * dest) (b : string * dest) => text_eqb (fst a) (T (fst b)) && (dest_code (snd a) =? dest_code (snd b)))
+           (List.filter (fun od => negb (dest_code (snd od) =? 0)) option_strings) spec_flags = true.
+Proof. vm_compute. repeat split; reflexivity. Qed.
 
 Lemma defaults_agree :
   default_scc = gen_default_scc /\ default_stl = gen_default_stl /\ default_imsc = gen_default_imsc /\
@@ -53,5 +90,5 @@ Proof. vm_compute. repeat split; reflexivity. Qed.
 Lemma probes_agree : forallb probe_ok gen_probes = true.
 Proof. vm_compute. reflexivity. Qed.
 (* and the README table judged on the code's answers: only recorded findings are departed from *)
-Lemma probes_spec_ok : forallb (fun p => negb (probe_class p =? 9)) gen_probes = true.
+Lemma probes_spec_ok : forallb (fun p => negb (probe_class p =? 9) && negb (probe_class p =? 8)) gen_probes = true.
 Proof. vm_compute. reflexivity. Qed.
